@@ -492,8 +492,8 @@ impl Scenario for Requests {
 
     fn budget(&self, tier: Tier) -> u64 {
         match tier {
-            Tier::Quick => 40_000,
-            Tier::Thorough => 3_000_000,
+            Tier::Quick => 100_000,
+            Tier::Thorough => 6_000_000,
         }
     }
 
